@@ -17,7 +17,7 @@ CHECKS = {
             'DESIGN.md 4/C01'),
     'C02': ('exploration',
             'bounded-exhaustive input enumeration (every file size across scaled blob boundaries, every single-field tampering) against an independent AES/SHA-384 reference',
-            'All file sizes over a scaled MAX_BLOB_SIZE, real 2 MiB boundary singles, all single-value tamperings of committed descriptor fields, all short file names over a hostile alphabet; compared with a reference written from the published stream format.',
+            'All file sizes over a scaled MAX_BLOB_SIZE, real 2 MiB boundary singles, all single-value tamperings of committed descriptor fields, all short file names over a hostile alphabet; compared with a reference written from the published stream format. Hex-case edits of the text-committed fields (key, IVs, blob hashes, stream hash) are demanded refusals.',
             'MAX_BLOB_SIZE scaled to 64 for the dense sweep (code uses it only through comparisons and reads); cryptography library trusted for AES.',
             'DESIGN.md 4/C02'),
     'C03': ('exploration',
@@ -47,7 +47,7 @@ CHECKS = {
             'DESIGN.md 4/C07'),
     'C08': ('exploration',
             'bounded-exhaustive enumeration of all blocks of 1..N transactions, every index and every single mutation of the genuine proof, against an independent Merkle reference',
-            'Every (block size, index) genuine proof accepted with the right position; every single mutation of branch/position/length/tx/height judged by folding with an independent Merkle implementation; enforced re-verification histories on one Transaction object, a cache/reorg family and 102 schedules of a reorg relative to in-flight server replies.',
+            'Every (block size, index) genuine proof accepted with the right position; every single mutation of branch/position/length/tx/height judged by folding with an independent Merkle implementation; enforced re-verification histories on one Transaction object, a cache/reorg family and 102 schedules of a reorg relative to in-flight server replies. Lying server on the batch entry point: altered transaction bytes with the genuine proof (every byte of two transactions, cached and uncached), and the same transaction re-requested under other heights.',
             'Synthetic headers (PoW not involved in this property).',
             'DESIGN.md 4/C08'),
     'C09': ('model_checking',
@@ -62,7 +62,7 @@ CHECKS = {
             'DESIGN.md 4/C10'),
     'C11': ('model_checking',
             'explicit-state BFS over add/re-add/remove/probe-outcome/clock histories of the real TreeRoutingTable (scaled K), invariant + brute-force closest-K oracle in every state',
-            'All operation histories to a depth bound over boundary-distance contacts; cover-exactly-once, placement, capacity, uniqueness, closest-K, eviction and admission checked in every reached state.',
+            'All operation histories to a depth bound over boundary-distance contacts; cover-exactly-once, placement, capacity, uniqueness, closest-K, eviction and admission checked in every reached state. Probe window: one complete second operation (every add / remove) while add_peer is suspended in its probe, each probe outcome.',
             'K scaled to 2/3 for the exhaustive part (code reads K only through len comparisons), real K=8 by bounded-deviation histories.',
             'DESIGN.md 4/C11'),
     'C12': ('model_checking',
@@ -97,7 +97,7 @@ CHECKS = {
             'DESIGN.md 4/C17'),
     'C18': ('model_checking',
             'explicit-state BFS over blob completion/publish/delete/behind-the-back/restart histories with a crash at every executor-job boundary, on the real BlobManager + SQLiteStorage (file db) under a virtual loop',
-            'Every history to a depth bound, with a crash injected at every choice point of the last operation; after each restart completed set, files and database rows must agree as the property states; save_blobs configurations, same-object restarts, unfinished downloads, oversized and symlinked files.',
+            'Every history to a depth bound, with a crash injected at every choice point of the last operation; after each restart completed set, files and database rows must agree as the property states; save_blobs configurations, same-object restarts, unfinished downloads, oversized and symlinked files. 499..1003 unrecorded blob files at one startup (the 500-row batch flush).',
             'sqlite own crash consistency trusted; crash = remaining executor jobs never run.',
             'DESIGN.md 4/C18'),
     'C19': ('exploration',
